@@ -78,11 +78,32 @@ def tripSexp (t : Trip) : Sexp :=
 
 /-- the Bool specification on the implementation's output: printing succeeded, the text re-parsed to an
 equal program, the second text is byte-identical -/
+def siblingsOk : Sexp → Bool
+  | .list (.atom "siblings" :: xs) => !xs.isEmpty && xs.all fun x =>
+      match x with
+      | .list [.atom _, .atom "true"] => true
+      | _ => false
+  | _ => false
+
+/-- the sibling routes that disagree (for tags / detail) -/
+def siblingsFailing : Sexp → List String
+  | .list (.atom "siblings" :: xs) => xs.filterMap fun x =>
+      match x with
+      | .list [.atom n, .atom "true"] => if n == "" then some n else none
+      | .list [.atom n, _] => some n
+      | _ => some "?"
+  | _ => ["missing"]
+
+/-- printed, reparsed to an equal program, second text byte-identical, AND every other public print / parse /
+build route agrees (`siblings` of harness/src/bin/c02.rs: per-instruction printing, debug printing, printing
+twice, into_/to_instructions, from_instructions / add_instruction / add_instructions / From<Vec>, `+`,
+Instruction::from_str, the third round trip) -/
 def specOnOut (out : Sexp) : Bool :=
   match out with
   | .list [.atom "ok", _, .list [.atom "print", .list (.atom "ok" :: _)],
       .list [.atom "reparse", .list [.atom "ok", _, .atom "true"]],
-      .list [.atom "print2", .list (.atom "ok" :: _)], .list [.atom "texteq", .atom "true"], _] => true
+      .list [.atom "print2", .list (.atom "ok" :: _)], .list [.atom "texteq", .atom "true"], _, sib] =>
+    siblingsOk sib
   | .list [.atom "rejected"] => true
   | _ => false
 
@@ -171,7 +192,7 @@ def handle (inp out : Sexp) : CaseResult :=
       | .ok is _ =>
         let t := trip is
         let mOut := tripSexp t
-        let agree := mOut == out
+        let agree := (List.range 7).all fun k => piece mOut k == piece out k
         let printed := match t.print1 with | .ok p => p | .error _ => []
         let strip (l : List Token) := l.filter fun x => x != .newLine && !(match x with | .comment _ => true | _ => false)
         let changed := strip printed != strip ts
@@ -191,7 +212,8 @@ def handle (inp out : Sexp) : CaseResult :=
               (if sameListing t.listing1 is then "listing-same-order" else "listing-reordered"),
               (if t.listing1.length < is.length then "redefinition" else "no-redefinition")] ++
             (t.listing1.map fun i => "v-" ++ i.variantName).eraseDups ++ kfTags is t out,
-          detail := if agree then (if specOnOut out then "" else s!"text={repr text} impl={out}")
+          detail := if agree then (if specOnOut out then "" else
+              s!"text={repr text} siblings failing: {siblingsFailing (piece out 7)} impl={out}")
             else s!"text={repr text} differing pieces {diffs}: " ++
               String.intercalate " | " (diffs.map fun k => s!"[{k}] model={piece mOut k} impl={piece out k}") }
       | _ =>
